@@ -5,7 +5,7 @@ VERIF = os.path.dirname(os.path.dirname(os.path.abspath(__file__)))
 c = json.load(open(os.path.join(VERIF, 'props.json')))
 P = c['properties']
 COMMON = ("Trusted: Verus 0.2026.09.13 + bundled Z3, rustc; the weaver (tools/weave.py: the verified text is /repo's own token stream plus marked additions; "
-          "erasure self-check before every run; declared rewrites T1-T14); std contracts in verus/prelude*.rs (assume_specification for std functions); "
+          "erasure self-check before every run; declared rewrites T1-T17); std contracts in verus/prelude*.rs (assume_specification for std functions); "
           "the RefCell stand-in (contents havocked at each borrow, only cell_inv/cell_const kept: assumes every mutation through a RefMut restores them); "
           "64-bit target (global size_of usize == 8); machine arithmetic, dev profile (overflow checks and debug_assert! are obligations). ")
 
